@@ -69,6 +69,16 @@ def run_case(case, cx):
             return
         cx.violation("harmless-change-reported-by-default:" + info["kind"], det)
         return
+    if info["kind"] == "param_cv" and not h.rc & R.STATUS_CHANGE and not h.rc & R.STATUS_ERROR:
+        # compiler-level freedom, not libabigail's: clang leaves an unused by-value parameter of a non-trivially-copyable class
+        # out of the DWARF altogether (see C16), so the qualifier change is in neither binary.  Decided with readelf: the
+        # function's DIE has fewer formal parameters than the source.
+        from ..oracle import elf
+        f = next((x for x in m2["funcs"] if x["name"] == info["iface"]), None)
+        recs = elf.dwarf_subprograms(b2).get(f.get("mangled", f["name"]) if f else "", []) if f else []
+        if f is not None and recs and any(n != len(f["params"]) for n, var in recs):
+            cx.cls("param_cv-on-parameter-the-compiler-dropped")
+            raise Inconclusive("the compiler's DWARF does not have all parameters of %s" % info["iface"])
     if h.rc & R.STATUS_ERROR or not h.rc & R.STATUS_CHANGE:
         cx.violation("harmless-change-not-shown-with--harmless:" + info["kind"], det)
         return
